@@ -3,6 +3,8 @@ package main
 import (
 	"fmt"
 	"go/constant"
+	"os"
+	"path/filepath"
 	"sort"
 	"strings"
 
@@ -295,6 +297,8 @@ func checkC18(c *Ctx) {
 		c.Obs = append(c.Obs, o)
 		c.Counts["R18.7"]++
 	}
+	ruleEmbedCoversTemplate(c, configDir)
+	c.MinCount("R18.8", 1)
 	c.MinCount("R18.1", 5)
 	c.MinCount("R18.5", 2)
 	c.MinCount("R18.6", 2)
@@ -352,7 +356,10 @@ func ruleFSCallback(c *Ctx, cb *ssa.Function, fl fsFlags, absent bool) {
 	pos := c.P.Pos(cb.Pos())
 	pathParam := cb.Params[0].Name()
 	isPathParam := func(t *Term) bool { return t != nil && t.Op == "param" && t.Aux == pathParam }
-	type res struct{ n int; bad string }
+	type res struct {
+		n   int
+		bad string
+	}
 	agg := map[string]*res{}
 	note := func(rule, k, bad string) {
 		k = rule + "|" + k
@@ -531,7 +538,10 @@ func truncate(s string, n int) string {
 func ruleBlacklist(c *Ctx, fn *ssa.Function, paths []*Path, fl fsFlags, configDir string) {
 	pos := c.P.Pos(fn.Pos())
 	want := configDir + "/device blacklist.txt"
-	type res struct{ n int; bad string }
+	type res struct {
+		n   int
+		bad string
+	}
 	agg := map[string]*res{}
 	note := func(k, bad string) {
 		if agg[k] == nil {
@@ -709,4 +719,43 @@ func isTemplateOf(t *Term, path string) bool {
 		return false
 	}
 	return call.Args[1].String() == path
+}
+
+// ruleEmbedCoversTemplate: R18.8 the embedded template tree is the shipped hidi-config tree: every regular file below
+// cmd/hidi/hidi-config in the source is matched by a //go:embed pattern of templateConfig (a directory pattern silently
+// leaves out dot- and underscore-files, and with them the directories that only hold a placeholder).
+func ruleEmbedCoversTemplate(c *Ctx, configDir string) {
+	pk := c.P.Pkgs[pkgMain]
+	key := "cmd/hidi/templateConfig/embeds-whole-" + configDir
+	if pk == nil || len(pk.GoFiles) == 0 {
+		c.Undec("R18.8", key, "-", "package cmd/hidi not loaded")
+		return
+	}
+	dir := filepath.Dir(pk.GoFiles[0])
+	embedded := map[string]bool{}
+	for _, f := range pk.EmbedFiles {
+		embedded[f] = true
+	}
+	var missing []string
+	n := 0
+	err := filepath.Walk(filepath.Join(dir, configDir), func(path string, info os.FileInfo, err error) error {
+		if err != nil {
+			return err
+		}
+		if info.Mode().IsRegular() {
+			n++
+			if !embedded[path] {
+				rel, _ := filepath.Rel(dir, path)
+				missing = append(missing, rel)
+			}
+		}
+		return nil
+	})
+	if err != nil || n == 0 {
+		c.Undec("R18.8", key, "-", fmt.Sprintf("template tree %s not readable in the source (%v)", filepath.Join(dir, configDir), err))
+		return
+	}
+	sort.Strings(missing)
+	c.Check(len(missing) == 0, "R18.8", key, "-", fmt.Sprintf("all %d files of the shipped tree are embedded (patterns %v)", n, pk.EmbedPatterns),
+		fmt.Sprintf("files of the shipped template tree that the //go:embed patterns %v leave out: %v - on a first start these (and directories holding only them) are not created, the tree is incomplete", pk.EmbedPatterns, missing))
 }
